@@ -21,6 +21,7 @@ from ..core import REPO, UnitResult, BoundedResult
 from ..unit import Unit
 from ..engine import values as V
 from . import fitter_units as FT
+from . import scan_units as SU
 from . import models as M
 from .c13 import lemma_session
 
@@ -66,14 +67,19 @@ def unit_bounded_equivalence(tier=None, seed=0):
     problems, ne, samples = [], 0, []
     P = ["compute_tip_position", "correct_force_offset"]
     for key, p in POWER.items():
-        for rtype, rx in (("absolute", (0, 0)), ("absolute", (1.76e-5, 1.9e-5)), ("relative cp", (-1.5e-6, 1e-6))):
+        for rtype, rx in (("absolute", (0, 0)), ("absolute", (1.76e-5, 1.9e-5)), ("relative cp", (-1.5e-6, 1e-6)),
+                          ("plateau search", (0, 0))):
             ref = None
+            edelta = rtype == "plateau search"
+            if edelta and key != "hertz_para" and tier == "quick":
+                continue
             for k in ((1.0, 0.5, 2.0) if tier == "quick" else (1.0, 0.1, 0.5, 0.6, 2.0, 3.7)):
                 cur = FT._synthetic()
-                cur.apply_preprocessing(P)
+                cur.apply_preprocessing(P + (["correct_tip_offset"] if edelta else []))
                 p0 = copy.deepcopy(cur.get_initial_fit_parameters(model_key=key))
-                cur.fit_model(model_key=key, params_initial=p0, gcf_k=k, range_type=rtype, range_x=rx,
-                              weight_cp=False, segment=0)
+                cur.fit_model(model_key=key, params_initial=p0, gcf_k=k, range_type="absolute" if edelta else rtype,
+                              range_x=rx, weight_cp=False, segment=0, optimal_fit_edelta=edelta,
+                              optimal_fit_num_samples=20)
                 fp = cur.fit_properties
                 ne += 1
                 rec = dict(E=fp["params_fitted"]["E"].value, cp=fp["params_fitted"]["contact_point"].value,
@@ -103,7 +109,7 @@ def unit_bounded_equivalence(tier=None, seed=0):
     res = UnitResult(unit="bounded.k_equivalence")
     res.bounded.append(BoundedResult(
         bid="C11.bounded.k_fit_equals_k1_fit", ok=not problems, evaluations=ne, distinct=ne,
-        bound="3 power-law models x 3 ranges (absolute full, absolute interval, contact-point relative) x k values "
+        bound="3 power-law models x 4 ranges (absolute full, absolute interval, contact-point relative, plateau search) x k values "
               "on one recorded curve, weighting off; tolerances 0.2 % (cp) and 1 % (E)",
         detail="reported cp, xmin/xmax unchanged and E scales with k^-p" if not problems else str(problems[0])[:300],
         samples=samples, failing_input=problems[0] if problems else None,
@@ -119,7 +125,7 @@ CANARIES = [
     dict(name="xmin not converted back", file="fit.py", old='                            "xmin": x.min() / self.fp["gcf_k"],',
          new='                            "xmin": x.min(),', expect="xmin"),
     dict(name="fitted points scaled but not the segment", file="fit.py", old='        xseg = self.x_axis[segid] * self.fp["gcf_k"]',
-         new='        xseg = self.x_axis[segid]', expect="model_abscissa_is_whole_segment_times_k"),
+         new='        xseg = self.x_axis[segid]', expect="fit_column_is_model_on_segment_nan_elsewhere"),
     dict(name="initial contact point not scaled", file="fit.py", old='        params_initial["contact_point"].set(value=cpi * self.fp["gcf_k"])',
          new='        params_initial["contact_point"].set(value=cpi)', expect="initial_contact_point_scaled_once"),
 ]
@@ -131,7 +137,7 @@ def unit_canaries(tier=None, seed=None):
 
 
 def units(tier):
-    us = FT.units_for("C11") + [Unit(f"lemma.homogeneity.{k}", unit_homogeneity, key=k) for k in POWER]
+    us = FT.units_for("C11") + SU.units_for("C11") + [Unit(f"lemma.homogeneity.{k}", unit_homogeneity, key=k) for k in POWER]
     us.append(Unit("bounded.k_equivalence", unit_bounded_equivalence))
     if tier == "thorough" and not os.environ.get("VF_NO_CANARIES") and str(REPO) == "/repo":
         us.append(Unit("selftest.canaries", unit_canaries))
